@@ -307,6 +307,12 @@ class AnnotGen:
                 items.append(g if g else self.atom(canonical))
             else:
                 items.append(self.atom(canonical))
+        # a repeat that is legal because the two copies are not siblings: a top-level plain group echoed inside another group
+        plain_tops = [g for g in items if g["t"] == "group" and g["role"] == "group" and
+                      all(x["role"] in ("plain", "value", "ext", "group") for x, _ in walk([g]))]
+        if plain_tops and rng.random() < 0.15:
+            echo = copy.deepcopy(rng.choice(plain_tops))
+            items.append(group([self.atom(canonical), echo]))
         return items
 
 
@@ -429,9 +435,13 @@ def mutate(gen, items, kind, rng):
         items.insert(rng.randrange(0, len(items) + 1), raw("Def-expand" + suffix))
         code = "TAG_GROUP_ERROR"
     elif kind == "toplevel-nested":
-        saved = gen.used
-        g = gen.temporal_group()
-        gen.used = saved
+        existing = [x for x in items if x["t"] == "group" and x["role"] in ("temporal-group", "duration-group")]
+        if existing and rng.random() < 0.5:
+            g = copy.deepcopy(rng.choice(existing))       # an equal, correctly placed copy stays at the top level
+        else:
+            saved = gen.used
+            g = gen.temporal_group()
+            gen.used = saved
         if g is None:
             return None
         if rng.random() < 0.5:
